@@ -564,9 +564,10 @@ def run_r8(ctx, rule):
             for s in b["stmts"]:
                 if s["k"] == "assign" and s["rv"]["k"] == "bin":
                     e = sy.rvalue(s["rv"])
-                    if e[1] == "Eq" and e[3] == ("c", 0) and e[2][0] == "l":
+                    # (either polarity: `count == 0 || count & 1 != 0`, or the negation of `lit != 0 && lit & 1 == 0`)
+                    if e[1] in ("Eq", "Ne") and e[3] == ("c", 0) and e[2][0] == "l":
                         has_zero = True
-                    if e[1] == "Ne" and e[3] == ("c", 0) and e[2][0] == "bin" and e[2][1] == "BitAnd" and e[2][3] == ("c", 1):
+                    if e[1] in ("Eq", "Ne") and e[3] == ("c", 0) and e[2][0] == "bin" and e[2][1] == "BitAnd" and e[2][3] == ("c", 1):
                         has_odd = True
         rule.check(has_zero and has_odd, "lit/assigning-even-nonzero", "a defining literal is rejected when it is 0 or odd", f.loc())
     # clause_lits range is inclusive: RangeInclusive (checked by R1) ; var_count uses `>` (R3)
